@@ -13,6 +13,12 @@ DieTree) are dumped by both tools under the option that prints the structure the
 spec/ReadelfEnvelopeV.tla renders the Versions writer's objects as loadable dynamic objects (GNU
 readelf reads .gnu.version through DT_VERSYM and the program headers); spec/ReadelfEnvelope.tla
 puts the section contents the DWARF-level writers emit into an ELF container with Elf!Chunks.
+Three further sources are writers of this property's own (round 3): spec/ReadelfEnvelopeS.tla (sections for the hex and string dumps,
+-x / -p by name and by number), spec/ReadelfEnvelopeR.tla (the Reloc writer's tables rendered with named symbols, symbol indices
+inside the table and type codes the machine defines: -r incl. negative addends in every class / byte order) and
+spec/ReadelfEnvelopeE.tla (location expressions in the context of their unit - DWARF format, address size, version, byte order,
+machine - with several contexts in one .debug_info, and SEQUENCES of files dumped by one process: the clone is run in-process and
+keeps module-level state between dumps; every dump of a sequence is compared with what GNU readelf prints for that file alone).
 GNU readelf is the oracle only where it accepts the image without complaint (exit status 0, no
 "readelf: Warning/Error", no bytes >= 0x80 in the text); every other restriction of the envelope
 is a predicate on the emitted case with a stated reason, counted in the evidence."""
@@ -114,30 +120,46 @@ def signature(msg):
     return re.sub(r'[0-9a-f]{2,}|\d', '#', m.group(1))[:70] + ' | ' + re.sub(r'[0-9a-f]{2,}|\d', '#', m.group(2))[:70]
 
 
+def _pair(kind, option, path):
+    """One (file, option) pair: (verdict, message)."""
+    try:
+        rc1, out1, err1 = _gnu(option, path, 300 if kind != 'writer' else 30)
+    except subprocess.TimeoutExpired:
+        if kind != 'writer':
+            raise
+        return 'oracle_rc', 'timeout'          # a generated image the oracle does not finish on: outside the envelope
+    if rc1 != 0:
+        return 'oracle_rc', rc1                # the oracle itself refuses the file: outside the envelope
+    if kind == 'writer' and ('readelf: Warning' in err1 or 'readelf: Error' in err1):
+        # generated images: GNU readelf is the oracle only where it accepts the input without complaint
+        return 'oracle_warn', err1.strip().splitlines()[0][:120]
+    if kind == 'writer' and any(ord(ch) >= 128 for ch in out1):
+        # names with bytes >= 0x80: what reaches the terminal depends on the encoding of stdout, which the property does not fix
+        return 'oracle_warn', 'output with bytes >= 0x80 (terminal-encoding dependent)'
+    rc2, out2 = _clone(option, path)
+    if rc2 != 0:
+        return 'clone_rc', str(rc2)
+    ok, msg = compare_output(out1, out2)
+    return ('ok' if ok else 'diff'), msg[:600]
+
+
 def _one(job):
     kind, name, option, path = job
     try:
-        try:
-            rc1, out1, err1 = _gnu(option, path, 300 if kind != 'writer' else 30)
-        except subprocess.TimeoutExpired:
-            if kind != 'writer':
-                raise
-            return (kind, name, option, 'oracle_rc', 'timeout')     # a generated image the oracle does not finish on: outside the envelope
-        if rc1 != 0:
-            return (kind, name, option, 'oracle_rc', rc1)      # the oracle itself refuses the file: outside the envelope
-        if kind == 'writer' and ('readelf: Warning' in err1 or 'readelf: Error' in err1):
-            # generated images: GNU readelf is the oracle only where it accepts the input without complaint
-            return (kind, name, option, 'oracle_warn', err1.strip().splitlines()[0][:120])
-        if kind == 'writer' and any(ord(ch) >= 128 for ch in out1):
-            # names with bytes >= 0x80: what reaches the terminal depends on the encoding of stdout, which the property does not fix
-            return (kind, name, option, 'oracle_warn', 'output with bytes >= 0x80 (terminal-encoding dependent)')
-        rc2, out2 = _clone(option, path)
+        if '|' not in path:
+            verdict, msg = _pair(kind, option, path)
+            return (kind, name, option, verdict, msg)
+        # a sequence of dumps by ONE process (the clone keeps module-level state between dumps): every dump is compared with what
+        # GNU readelf prints for that file; the first dump that disagrees is reported
+        for k, p in enumerate(path.split('|')):
+            verdict, msg = _pair(kind, option, p)
+            if verdict in ('diff', 'clone_rc'):
+                return (kind, name, option, verdict, 'dump %d of the sequence: %s' % (k + 1, msg))
+            if verdict != 'ok':
+                return (kind, name, option, verdict, msg)
+        return (kind, name, option, 'ok', '')
     except Exception as ex:                     # noqa
         return (kind, name, option, 'machinery', '%s:%s' % (type(ex).__name__, ex))
-    if rc2 != 0:
-        return (kind, name, option, 'clone_rc', str(rc2))
-    ok, msg = compare_output(out1, out2)
-    return (kind, name, option, 'ok' if ok else 'diff', msg[:600])
 
 
 def check(run):
@@ -147,10 +169,14 @@ def check(run):
                 'description sweep images (one per entry of each ELF-level description table of the clone, generated by spec/Envelope.tla) '
                 'and the cross-writer sweep (a deterministic sample of the images the writers of the other properties\' specifications emit, '
                 'under the option that dumps the structure: see coverage.writers for images offered / refused by the oracle / compared per '
-                'source); each pair runs GNU readelf 2.40 and the clone and compares under the vendored tolerance rules')
+                'source; sources of this property: hex / string dump sections, relocation tables rendered with named symbols, expressions in '
+                'mixed unit contexts and sequences of dumps by one process); each pair runs GNU readelf 2.40 and the clone and compares '
+                'under the vendored tolerance rules')
     run.assumptions += ['GNU binutils readelf 2.40 is the oracle for the text; the project targets >= 2.41: pairs that differ only because of '
                         'the older oracle are excluded with the reason (ORACLE_SKEW)',
                         'the clone is run in-process through its main(stream); 1 pair in 40 is repeated through a real subprocess',
+                        'sequences (exprctx): the files of a sequence are dumped one after the other by the same process; each dump is '
+                        'expected to print what GNU readelf prints for the file alone (ReadelfEnvelopeE!HistoryFree)',
                         'cross-writer sweep: an image is outside the envelope when GNU readelf exits non-zero or prints "readelf: Warning/Error" '
                         'for it, or when the source\'s envelope predicate names a reason (counted per reason in coverage.writers)']
     jobs = []
@@ -214,6 +240,8 @@ def check(run):
     sub_checked = 0
     for job in jobs[::40]:
         kind, name, option, path = job
+        if '|' in path:
+            continue                  # (a sequence of dumps by one process: the in-process route is what is under test)
         p = subprocess.run([sys.executable, os.path.join(core.REPO, 'scripts', 'readelf.py')] + option.split() + [path], stdout=subprocess.PIPE,
                            stderr=subprocess.PIPE, cwd=core.REPO,
                            # (stdout is decoded as latin-1 below: have the interpreter encode it that way, non-ASCII names occur)
